@@ -128,9 +128,10 @@ NOT_YET = 'check not built yet in this round (work in progress; see DESIGN.md se
 
 # later additions, appended to (technique, level text, level note)
 APPEND = {
- 'C03': ('; the GTI filter is regenerated from the source (imperative translator) and proved equal to the model',
+ 'C03': ('; the GTI filter (imperative translator), the closures that build the count spectrum and the hit-or-miss vignetting rule (translator/lamtrans.py) are regenerated from the source and proved equal to the model',
          ' gen_filter_exact / gen_filter_sublist restate the filter theorems on the definition regenerated from xGTIList.filter_event_times; GTI lists out of chronological order, nested and '
-         'overlapping, late-starting and early-ending lists in the seed-list data flow; kept share against the light-curve integral over the intervals.', ''),
+         'overlapping, late-starting and early-ending lists in the seed-list data flow; kept share against the light-curve integral over the intervals. '
+         'gen_count_pdf_eq_model / _pointwise / _unabsorbed (spectrum at E(1+z), effective area and absorption at E, on the current source), gen_vign_keep_eq_model, gen_vign_keep_prob.', ''),
  'C04': ('; apply_dead_time (loop) and _finalize (orchestration skeleton) are regenerated from the source and proved equal to / composed into the model',
          ' T-tie: gen_apply_dead_time_eq_model, gen_dead_time_spaced (imperative translator), gen_finalize_eq_model / gen_finalize_rows (the order, guards and arguments of the steps of _finalize, '
          'regenerated by translator/skeltrans.py, composed with the models of the steps into the model of the whole); ROI models sharing component objects (every SRC_ID in the ROITABLE).',
